@@ -41,7 +41,8 @@ CONSTANTS Apps,         \* set of appender names (strings)
           ChunkCap,     \* a head chunk is cut when it holds ChunkCap samples (= 2*SamplesPerChunk)
           MaxOps,       \* bound on the history length
           EmitMode,     \* "all" (every transition) | "state" (one per distinct state) | "none"
-          HistViews     \* TRUE: every history step carries the predicted views (simulation)
+          HistViews,    \* TRUE: every history step carries the predicted views (simulation)
+          OrderedBegin  \* TRUE: appenders are created in name order (state-space reduction for the 3-appender emission model)
 
 VARIABLES lastID,   \* isolation.appendsOpenList.appendID (last issued append id)
           open,     \* keys of isolation.appendsOpen
@@ -189,8 +190,10 @@ Step(rec) == /\ nops' = nops + 1
              /\ hist' = Append(hist, IF HistViews THEN rec @@ [views |-> Views', shape |-> Shape'] ELSE rec)
 
 \* Head.Appender (iso.newAppendID) followed by the Append calls; a sample is batched iff appendable
+AppRank(a) == CHOOSE i \in 1..4 : <<"a1", "a2", "a3", "a4">>[i] = a
 Begin(a) ==
   /\ ap[a].pc = "idle"
+  /\ OrderedBegin => \A b \in Apps : AppRank(b) < AppRank(a) => ap[b].pc # "idle"
   /\ LET id  == lastID + 1
          op  == open \cup {id}
          lw  == LowWatermark(op, id)
@@ -369,6 +372,10 @@ TxTwoB  == [a \in {"a1", "a2"} |->
 \* two appenders, six samples in s1 (three chunks, ring growth past its initial capacity 4)
 TxTwoC  == [a \in {"a1", "a2"} |->
              IF a = "a1" THEN <<S("s1", 1), S("s1", 3), S("s1", 5)>> ELSE <<S("s1", 2), S("s1", 4), S("s1", 6)>>]
+\* three appenders, one sample each in one series: reader/appender watermark interplay (the cleanup bound
+\* of the third appender comes from the oldest of two readers)
+TxWm    == [a \in {"a1", "a2", "a3"} |->
+             CASE a = "a1" -> <<S("s1", 1)>> [] a = "a2" -> <<S("s1", 2)>> [] a = "a3" -> <<S("s1", 3)>>]
 \* three appenders, five samples in s1 (two chunk cuts, ring growth past its initial capacity 4)
 TxMid   == [a \in {"a1", "a2", "a3"} |->
              CASE a = "a1" -> <<S("s1", 1), S("s2", 1), S("s1", 4)>>
